@@ -65,14 +65,44 @@ impl<E: El> Iterator for Script<E> {
     }
 }
 
+/// the same scripted source carrying the `FusedIterator` marker (std's `Fuse` adaptor is a plain pass-through
+/// for such sources: it keeps no "done" flag of its own).  Only truthfully fused scripts are run with it.
+struct Marked<E>(Script<E>);
+impl<E: El> Iterator for Marked<E> {
+    type Item = E;
+    fn next(&mut self) -> Option<E> {
+        self.0.next()
+    }
+    fn size_hint(&self) -> (usize, Option<usize>) {
+        self.0.size_hint()
+    }
+}
+impl<E: El> std::iter::FusedIterator for Marked<E> {}
+
+thread_local! { static MARKED_RUN: Cell<bool> = Cell::new(false); }
+
 fn run<E: El, N: ArrayLength>(case: &[i128]) -> (Vec<i128>, Vec<String>) {
-    let form = case[0];
     let hint = (case[2] as usize, if case[3] < 0 { None } else { Some(case[3] as usize) });
     let resp: Vec<i64> = case[4..].iter().map(|x| *x as i64).collect();
     track::reset(100000);
     let polls = Rc::new(Cell::new(0));
     let yielded = Rc::new(std::cell::RefCell::new(vec![]));
     let src = Script::<E> { resp: resp.clone(), pos: 0, polls: polls.clone(), yielded: yielded.clone(), hint, _e: std::marker::PhantomData };
+    if MARKED_RUN.with(|m| m.get()) {
+        run_src::<E, N, Marked<E>>(case, Marked(src), resp, polls, yielded)
+    } else {
+        run_src::<E, N, Script<E>>(case, src, resp, polls, yielded)
+    }
+}
+
+fn run_src<E: El, N: ArrayLength, I: Iterator<Item = E> + 'static>(
+    case: &[i128],
+    src: I,
+    resp: Vec<i64>,
+    polls: Rc<Cell<usize>>,
+    yielded: Rc<std::cell::RefCell<Vec<i64>>>,
+) -> (Vec<i128>, Vec<String>) {
+    let form = case[0];
     let mut out = vec![];
     let mut result_ids: Vec<i64> = vec![];
     let push_ok = |out: &mut Vec<i128>, ids: &[i64]| {
@@ -209,6 +239,8 @@ fn main() {
     let a = args();
     quiet_panics();
     ZST_RUN.with(|z| z.set(a.extra.iter().any(|x| x == "tz")));
+    let marked = a.extra.iter().any(|x| x == "fm");
+    MARKED_RUN.with(|m| m.set(marked));
     if let Some(c) = a.replay {
         do_case(c);
         return;
@@ -251,9 +283,9 @@ fn main() {
                         dist("panic");
                         do_case(c);
                     }
-                    // not fused: None at j, then more items
-                    for j in 0..=(if only_panics { 0 } else { count.min(n + 1) + 1 }) {
-                        if j > count.min(n + 1) || only_panics {
+                    // not fused: None at j, then more items (never with the FusedIterator marker: that would lie)
+                    for j in 0..=(if only_panics || marked { 0 } else { count.min(n + 1) + 1 }) {
+                        if j > count.min(n + 1) || only_panics || marked {
                             break;
                         }
                         let mut c = vec![form, n as i128, lo, hi];
@@ -292,7 +324,7 @@ fn main() {
             if rng.chance(1, 60) {
                 c.push(-2);
             }
-            if rng.chance(1, 80) {
+            if rng.chance(1, 80) && !marked {
                 c.push(-1);
             }
             c.push(k as i128);
